@@ -111,6 +111,18 @@ def gen_cases(chk, n, table):
             if "label" not in c["mdl"]["given"]:
                 c["mdl"]["given"].append("label")
         cases.append(c)
+    # names of the OTHER category and published short forms that the list files do not contain: the library matches names by prefix,
+    # so the driver's own list check is the only guard ('-c background -N Zr96' must be refused: the background name is Zr96+Nb96)
+    cross = [("background", x) for x in dbd if x not in bkg] + [("dbd", x) for x in bkg if x not in dbd]
+    cross += [("background", x.split("+")[0]) for x in bkg if "+" in x and x.split("+")[0] not in bkg]
+    rng2 = Rng(chk.seed, 1317)
+    pick = rng2.sample(cross, min(len(cross), 10 if n <= 100 else 120))
+    for must in (("background", "Zr96"), ("background", "Ca48"), ("background", "Bi214"), ("dbd", "Co60")):
+        if must in cross and must not in pick:
+            pick.append(must)
+    for j, (cat, nuc) in enumerate(pick):
+        cases.append({"id": n + 100 + j, "cat": cat, "nuclide": nuc, "seed": 100 + j, "n": 5, "level": 0 if cat == "dbd" else None, "mode": 1 if cat == "dbd" else None,
+                      "emin": None, "emax": None, "activity": None, "mdl": None, "extra": [], "bad": "nuclide-of-the-other-list", "basename_kind": "ok", "order": j % 6})
     # every --pgop-mdl-* option alone (each of them switches the operation on by itself), in every run whatever the seed
     defaults = {"label": "", "rank": -1, "phi": 0.0, "theta": 0.0, "aperture": 0.0}
     values = {"label": "e-", "rank": 0, "phi": 45.0, "theta": 90.0, "aperture": 30.0}
